@@ -40,7 +40,7 @@ NsChoices == { <<>>, <<"acme">>, <<"big", "corp">>, <<"a", "b", "c">> }
 VerChoices == {"", "v1", "v1beta1", "v1p1beta1"}
 
 \* option items as they appear in the comma separated plugin parameter
-OptItems == { "transport=grpc", "transport=rest", "transport=grpc+rest", "metadata", "metadata=false",
+OptItems == { "transport=grpc", "transport=rest", "transport=grpc+rest", "transport=rest+grpc", "metadata", "metadata=false",
               "autogen-snippets=false", "rest-numeric-enums", "foo=bar", "foo=a=b", "unknownflag",
               "python-gapic-name=book_store", "python-gapic-namespace=Big.Corp",
               "python-gapic-bogus=1", "transport=rest#2" }   \* "#2": a second, later transport item
@@ -48,11 +48,13 @@ OptItems == { "transport=grpc", "transport=rest", "transport=grpc+rest", "metada
 \* snippets off, which the Ads sample template cannot render): the two items always travel together (scope "ads").
 Has(seq, x) == \E i \in 1..Len(seq) : seq[i] = x
 FirstTransport(items) ==
-  LET idx == {i \in 1..Len(items) : items[i] \in {"transport=grpc", "transport=rest", "transport=grpc+rest", "transport=rest#2"}}
+  LET idx == {i \in 1..Len(items) : items[i] \in {"transport=grpc", "transport=rest", "transport=grpc+rest", "transport=rest+grpc", "transport=rest#2"}}
   IN IF idx = {} THEN <<"grpc">>
      ELSE LET i == CHOOSE j \in idx : \A k \in idx : j <= k
           IN CASE items[i] = "transport=grpc" -> <<"grpc">>
                [] items[i] \in {"transport=rest", "transport=rest#2"} -> <<"rest">>
+               \* the ORDER in which the transports are requested is irrelevant: gRPC is the default whenever it is requested
+               [] items[i] = "transport=rest+grpc" -> <<"rest", "grpc">>
                [] OTHER -> <<"grpc", "rest">>
 
 -----------------------------------------------------------------------------
